@@ -1,7 +1,9 @@
 ---------------------------- MODULE Trace_Gauss ----------------------------
 (* Trace validation for Matrix::solve_basic / solve_lu (C01) and Matrix::determinant /  *)
 (* inverse (C02).  Every event is one call of the real code.  There is no history: the  *)
-(* only state is the cursor.                                                            *)
+(* only state is the cursor.  Events of a SEQUENCE on one Matrix object (queries         *)
+(* interleaved with mutators, field k = step) carry the entries the object held at the  *)
+(* moment of the call and are judged against those, like any other call.                *)
 (*                                                                                      *)
 (* Exact element type (ty = "rat"): the event carries the integer matrix, the integer   *)
 (* right-hand side and the returned rationals as reduced pairs [n, d]; TLC decides      *)
@@ -59,7 +61,9 @@ InverseOkEv(e) ==
   ELSE IF e.ty = "rat"
     THEN ExactInverse(e.a, e.inv, e.n) /\ SameIntMat(e.post, e.a)
     ELSE /\ e.rows = e.n /\ e.cols = e.n
-         /\ UnitsOk(e.runits, Guard(e)) /\ UnitsOk(e.lunits, Guard(e))
+         /\ UnitsOk(e.runits, Guard(e))
+         \* the left residual is only logged when kappa_inf(A) <= 1e8 (it carries a condition number)
+         /\ (Has(e, "lunits") => UnitsOk(e.lunits, Guard(e)))
          /\ SameSeqs(e.pre, e.post) /\ Len(e.pre) = e.n * e.n
 
 Explained(e) ==
